@@ -45,10 +45,13 @@ def soloJob (tid k : Nat) (job : Job) (pc : Pc) (s : Shared) (envs : List (Share
   solo sys view tid k { sh := s, loc := { job := job, pc := pc }, envs := envs }
 
 /-- what the lock discipline (C11: `discipline_ok` on the regenerated lock facts) guarantees about the other goroutines:
-    while this thread holds the write lock nobody else writes the plain field `currentlyAllowedEventCount`; and the
-    ghost event log is invisible to everybody -/
+    while this thread holds the write lock nobody else releases it, nobody else writes the plain field
+    `currentlyAllowedEventCount`, publishes a version or arms a timer (all of that happens under the write lock only:
+    `resetOpenTimeWithLock`, `Check`'s critical section); and the ghost event log is invisible to everybody -/
 def Rely (tid : Nat) (envs : List (Shared → Shared)) : Prop :=
-  ∀ e ∈ envs, (∀ x : Shared, x.writer = some tid → (e x).count = x.count) ∧
-              (∀ (x : Shared) (evs : List Ev), e { x with events := evs } = { e x with events := evs })
+  ∀ e ∈ envs,
+    (∀ x : Shared, x.writer = some tid →
+      (e x).writer = some tid ∧ (e x).count = x.count ∧ (e x).version = x.version ∧ (e x).armed = x.armed) ∧
+    (∀ (x : Shared) (evs : List Ev), e { x with events := evs } = { e x with events := evs })
 
 end CM.Conc.TC
